@@ -301,7 +301,8 @@ class Phase:
         n = 9 if tier == 'quick' else 12
         return ('every alternating peak/trough placement with consecutive extrema >= 2 apart on arrays of length <= %d, '
                 'without midpoints and with every midpoint placement inside its flank (coinciding with extrema included) '
-                'for up to 3 flanks; plus cyclepoints of the signal corpus at several boundaries' % n)
+                'for up to 3 flanks (also with the rise or the decay midpoints alone, decided by the armed contract); plus '
+                'cyclepoints of the signal corpus at several boundaries' % n)
 
     def gen(self, tier, seed):
         nmax = 9 if tier == 'quick' else 12
@@ -367,4 +368,14 @@ class Phase:
                            dict(sig=np.zeros(n), peaks=peaks, troughs=troughs, rises=rises, decays=decays))
             if m:
                 return 'armed contract: ' + m
+            if mids is not None:
+                # calls with one kind of midpoint only: decided by the armed contract
+                for r_, d_ in ((rises, None), (None, decays)):
+                    try:
+                        m = armed_call('bycycle.cyclepoints.phase.extrema_interpolated_phase', extrema_interpolated_phase,
+                                       dict(sig=np.zeros(n), peaks=peaks, troughs=troughs, rises=r_, decays=d_))
+                    except Exception as e:
+                        return 'raised %r with one kind of midpoint' % (e,)
+                    if m:
+                        return 'armed contract: ' + m
         return check_phase(n, ex, kinds, mids, pha)
